@@ -38,9 +38,9 @@ def zlift(x):
         if x != x or x in (float("inf"), float("-inf")):
             raise Unsupported("non-finite literal")
         fr = Fraction(x)
-        return z3.RealVal(fr.numerator) / z3.RealVal(fr.denominator) if fr.denominator != 1 else z3.RealVal(fr.numerator)
+        return z3.RealVal(f"{fr.numerator}/{fr.denominator}") if fr.denominator != 1 else z3.RealVal(fr.numerator)
     if isinstance(x, Fraction):
-        return z3.RealVal(x.numerator) / z3.RealVal(x.denominator)
+        return z3.RealVal(f"{x.numerator}/{x.denominator}")
     if isinstance(x, SymInt):
         return z3.ToReal(x.t)
     raise Unsupported(f"cannot lift {type(x).__name__}")
